@@ -14,7 +14,7 @@ import time
 ROOT = os.path.dirname(os.path.dirname(os.path.abspath(__file__)))
 sys.path.insert(0, ROOT)
 
-from vfw import gen, verus  # noqa: E402
+from vfw import gen, verus, kani  # noqa: E402
 from vfw.gen import Undecided  # noqa: E402
 
 EVIDENCE_DIR = os.path.join(ROOT, "evidence")
@@ -376,6 +376,12 @@ def check_property(prop, tier, seed, keep=False, verbose=False):
                 kf_report.append({"id": k["id"], "obligation": k["obligation"], "still_fails_unguarded": False,
                                   "note": "the unguarded clause verified in this run: the finding no longer reproduces"})
                 print("note: known finding %s no longer reproduces (unguarded clause verifies)" % k["id"])
+        kani_results = []
+        if tier == "thorough":
+            kani_results = kani.run([prop])
+            for kr in kani_results:
+                if kr.get("result") == "FAILED":
+                    undecided.append("bounded Kani cross-check %s FAILED: %s (an assumed contract or the real function is wrong; see evidence.coverage.kani_crosschecks)" % (kr["harness"], kr.get("failure_would_mean")))
         wall = time.time() - t0
         status = 0
         for l in known_lines:
@@ -409,6 +415,7 @@ def check_property(prop, tier, seed, keep=False, verbose=False):
                 "canary_rejected": {un: runs[un].canary_failed for un in unit_names},
                 "known_findings": kf_report,
                 "must_fail_twins": twin_report,
+                "kani_crosschecks": kani_results,
                 "extraction": {"items": items, "rewrites": rewrites},
                 "samples": sample_obligations(runs, unit_names, UNITS, prop),
                 "undecided": undecided,
